@@ -128,7 +128,7 @@ func init() {
 	base := WorldProp{ID: "C08", Name: "C08"}
 	base.Invariants = func() []Invariant { return nil }
 	base.Config = c08Config
-	base.Gen = GenOpts{Weights: c08Weights(), HostilePct: 6, ExtremePct: 0, Anchor: true, Tempos: []int{4, 15, 40}, CapBits: 40, ClampBits: 40, DowntimePct: 10}
+	base.Gen = GenOpts{Weights: c08Weights(), HostilePct: 6, ExtremePct: 0, Anchor: true, Tempos: []int{4, 15, 40}, CapBits: 40, ClampBits: 40, DowntimePct: 10, SimPct: 12}
 	base.MinSteps, base.MaxSteps = 40, 120
 	base.Tail = func(m *Machine) []Action {
 		return []Action{{Kind: "nextBlock", Dt: 61}, {Kind: "nextBlock", Dt: 3}, {Kind: "nextBlock", Dt: 61}, {Kind: "nextBlock", Dt: 3}}
@@ -306,6 +306,10 @@ func TestC08(t *testing.T) {
 		st.Extra["replica-executions"] += int64(replicas + procs)
 		st.Extra["blocks-compared"] += int64(len(blocks) * (replicas + procs))
 		st.Extra["transactions-in-recorded-blocks"] += int64(txs)
+		st.Extra["node-local-simulations-on-the-recording-node"] += int64(m.C.Simulated)
+		if m.C.Simulated > 0 {
+			st.Labels["history-with-node-local-simulations"]++
+		}
 		if multiSeal {
 			st.Labels["two-feeders-close-in-one-block"]++
 		}
